@@ -63,17 +63,22 @@ def phase_suite():
 
 
 def phase_check(res):
-    assert subprocess.run("git -C /repo diff --quiet", shell=True).returncode == 0, "/repo dirty"
-    rc, out = sh("git -C /repo apply %s/patch.diff" % src, cwd="/repo", e=dict(os.environ))
+    # the check runs against a scratch worktree of /repo's current HEAD with the patch applied (VERIF_REPO); /repo is not touched
+    mwt = "/tmp/wt/_confirm_%s_%s" % (pid, k)
+    subprocess.run("git -C /repo worktree remove --force %s" % mwt, shell=True, capture_output=True)
+    rc, out = sh("git -C /repo worktree add --detach %s HEAD -q" % mwt, cwd="/repo", e=dict(os.environ))
     assert rc == 0, out
     try:
-        rc, out = sh("/venv/bin/python run_check.py %s --tier quick" % check_id, cwd="/verif", e=dict(os.environ))
+        rc, out = sh("git -C %s apply %s/patch.diff" % (mwt, src), cwd="/repo", e=dict(os.environ))
+        assert rc == 0, "patch does not apply to current HEAD: " + out
+        rc, out = sh("/venv/bin/python run_check.py %s --tier quick" % check_id, cwd="/verif", e=dict(os.environ, VERIF_REPO=mwt))
         res["quick_check"] = check_id
+        res["quick_check_repo_head"] = subprocess.run("git -C /repo log --format=%h -1", shell=True, capture_output=True, text=True).stdout.strip()
         res["quick_check_exit"] = rc
         res["quick_check_lines"] = [l[:300] for l in out.splitlines()
                                     if l.startswith(("VIOLATION", "violation:", "HARNESS", check_id + " tier"))][:12]
     finally:
-        subprocess.run("git -C /repo checkout -- .", shell=True)
+        subprocess.run("git -C /repo worktree remove --force %s" % mwt, shell=True, capture_output=True)
     os.makedirs(dst, exist_ok=True)
     shutil.copy(src + "/patch.diff", dst + "/patch.diff")
     shutil.copy(src + "/demo.py", dst + "/demo.py")
